@@ -161,6 +161,57 @@ func fwCost(tab []link, hist []int, opt route.MinimizeOption) [][]float64 {
 	return cost
 }
 
+// dijkstraRow is the minimum cost from node s to every node over the links of
+// hist (O(n^2) selection, no heap: the reference stays a dozen lines), cached.
+var dijCache = map[string][]float64{}
+
+func dijkstraRow(tab []link, hist []int, opt route.MinimizeOption, s int) []float64 {
+	key := fmt.Sprintf("%p|%d|%v|%d", &tab[0], len(hist), opt, s)
+	if c, ok := dijCache[key]; ok {
+		return c
+	}
+	n := len(nodePos)
+	type arc struct {
+		to int
+		w  float64
+	}
+	adj := make([][]arc, n)
+	for _, li := range hist {
+		l := tab[li]
+		w := l.Len
+		if opt == route.Time {
+			w = l.Len / l.Speed
+		}
+		adj[l.A] = append(adj[l.A], arc{l.B, w})
+		adj[l.B] = append(adj[l.B], arc{l.A, w})
+	}
+	d := make([]float64, n)
+	done := make([]bool, n)
+	for i := range d {
+		d[i] = math.Inf(1)
+	}
+	d[s] = 0
+	for {
+		u := -1
+		for i := range d {
+			if !done[i] && !math.IsInf(d[i], 1) && (u < 0 || d[i] < d[u]) {
+				u = i
+			}
+		}
+		if u < 0 {
+			break
+		}
+		done[u] = true
+		for _, a := range adj[u] {
+			if d[u]+a.w < d[a.to] {
+				d[a.to] = d[u] + a.w
+			}
+		}
+	}
+	dijCache[key] = d
+	return d
+}
+
 // judge one query on one network; returns "" or symptom + detail
 func judge(tab []link, hist []int, opt route.MinimizeOption, net *route.Network, from, to geom.Point) (string, string, bool) {
 	present := map[int]bool{}
@@ -187,7 +238,14 @@ func judge(tab []link, hist []int, opt route.MinimizeOption, net *route.Network,
 	if !ok1 || !ok2 {
 		return "", "", true
 	}
-	cost := fwCost(tab, hist, opt)
+	var cost [][]float64
+	if len(nodePos) > 200 {
+		// large networks: only the row of the start node, by Dijkstra
+		cost = make([][]float64, len(nodePos))
+		cost[s] = dijkstraRow(tab, hist, opt, s)
+	} else {
+		cost = fwCost(tab, hist, opt)
+	}
 	var rt geom.MultiLineString
 	var dist, tm, sd, ed float64
 	if p := try(func() { rt, dist, tm, sd, ed = net.ShortestRoute(from, to) }); p != "" {
@@ -283,7 +341,7 @@ func main() {
 		return
 	}
 	rep = report.New("C19", tier, "model_checking")
-	rep.Rule = "E2: breadth-first search over all AddLink histories (each of the 10 candidate links between 5 irregularly placed nodes at most once; straight / detour geometry, stored direction and speed fixed per link by a table; tables with speeds {1,4} and uniform 0.1 (thorough: three {1,4} tables, uniform 0.1, {0.25,0.5}, uniform 25), and one table (thorough two) over 5 nodes in projected-metre coordinates (500000, 4900000) of which two are 0.36 apart) to depth 5 (7), deduplicated by (link set, node-id assignment); successor = replay on a fresh Network; in every distinct state, for both MinimizeOptions, all 49 ordered pairs of query points from {5 node positions, 2 off-network points} (pairs with a non-unique nearest node skipped); E3: in states with <= 3 links every query is additionally explored over all map-iteration orders of the instrumented route package with at most 1 deviation. every state of >= 2 links is also reached on one object with all queries asked before the last AddLink (queries as operations); an 8x8 street grid (64 nodes, 112 links: the node index has several leaves) with all 4096 ordered pairs of 64 off-node query points (some links densified to 1500 vertices), the same as a 9x7 grid in longitude/latitude-like coordinates (63 nodes, 3969 query pairs) and as 13x13 scattered nodes (169 nodes, 361 query points inside and up to three steps outside the network, 6 partners each), and a straight road of 80 collinear nodes with 144 query pairs; Oracle: Floyd-Warshall minimum cost, chain validity, totals, emptiness. Non-trivial = states in which some node pair has at least two distinct routes."
+	rep.Rule = "E2: breadth-first search over all AddLink histories (each of the 10 candidate links between 5 irregularly placed nodes at most once; straight / detour geometry, stored direction and speed fixed per link by a table; tables with speeds {1,4} and uniform 0.1 (thorough: three {1,4} tables, uniform 0.1, {0.25,0.5}, uniform 25), and one table (thorough two) over 5 nodes in projected-metre coordinates (500000, 4900000) of which two are 0.36 apart) to depth 5 (7), deduplicated by (link set, node-id assignment); successor = replay on a fresh Network; in every distinct state, for both MinimizeOptions, all 49 ordered pairs of query points from {5 node positions, 2 off-network points} (pairs with a non-unique nearest node skipped); E3: in states with <= 3 links every query is additionally explored over all map-iteration orders of the instrumented route package with at most 1 deviation. every state of >= 2 links is also reached on one object with all queries asked before the last AddLink (queries as operations); an 8x8 street grid (64 nodes, 112 links: the node index has several leaves) with all 4096 ordered pairs of 64 off-node query points (some links densified to 1500 vertices), the same as a 9x7 grid in longitude/latitude-like coordinates (63 nodes, 3969 query pairs) and as 13x13 scattered nodes (169 nodes, 361 query points inside and up to three steps outside the network, 6 partners each), a straight road of 80 collinear nodes with 144 query pairs, and a ladder of 1501 rungs (3002 nodes: three levels in the node index) with 576 query pairs; Oracle: Floyd-Warshall minimum cost, chain validity, totals, emptiness. Non-trivial = states in which some node pair has at least two distinct routes."
 	type tabSpec struct {
 		variant int
 		speeds  [2]float64
@@ -556,6 +614,63 @@ func main() {
 							o = "Time"
 						}
 						rep.Violation(fmt.Sprintf("ShortestRoute|%s|%s|%s", o, gv.name, sym), map[string]interface{}{"network": gv.desc + ", links between grid neighbours, speeds {1,4,2}[(a+2b)%3]", "from": from, "to": to, "observed": det})
+					}
+				}
+			}
+		}
+		nodePos = save
+	}
+	// a dual carriageway: two rails y = 0 and y = 1 with a rung at every integer
+	// x from 0 to 1500, added west to east one rung at a time (3002 nodes with
+	// integer coordinates: the node index has three levels and many of its boxes
+	// are flat), 24 query points, all ordered pairs, both options
+	{
+		save := nodePos
+		nodePos = nil
+		const rungs = 1501
+		for i := 0; i < rungs; i++ {
+			nodePos = append(nodePos, geom.Point{X: float64(i), Y: 0}, geom.Point{X: float64(i), Y: 1})
+		}
+		var tab []link
+		for i := 0; i < rungs; i++ {
+			sp := []float64{1, 4, 2}[i%3]
+			if i > 0 {
+				tab = append(tab, link{2 * (i - 1), 2 * i, geom.LineString{nodePos[2*(i-1)], nodePos[2*i]}, sp, 1},
+					link{2*(i-1) + 1, 2*i + 1, geom.LineString{nodePos[2*(i-1)+1], nodePos[2*i+1]}, 6 - sp, 1})
+			}
+			tab = append(tab, link{2 * i, 2*i + 1, geom.LineString{nodePos[2*i], nodePos[2*i+1]}, 2, 1})
+		}
+		h := make([]int, len(tab))
+		for i := range h {
+			h[i] = i
+		}
+		var qs []geom.Point
+		for k := 0; k < 24; k++ {
+			qs = append(qs, geom.Point{X: 63.3*float64(k) + 0.2, Y: []float64{-0.4, 0.2, 0.7, 1.3}[k%4]})
+		}
+		for _, opt := range []route.MinimizeOption{route.Distance, route.Time} {
+			net, p := build(tab, h, opt)
+			if p != "" {
+				rep.Violation("AddLink|panic", map[string]interface{}{"history": "ladder of 1501 rungs", "panic": p})
+				continue
+			}
+			states++
+			for _, from := range qs {
+				for _, to := range qs {
+					sym, det, skip := judge(tab, h, opt, net, from, to)
+					queriesRun++
+					if skip {
+						skipped++
+					}
+					if sym != "" {
+						o := "Distance"
+						if opt == route.Time {
+							o = "Time"
+						}
+						if len(det) > 600 {
+							det = det[:600] + " ..."
+						}
+						rep.Violation(fmt.Sprintf("ShortestRoute|%s|ladder-1501|%s", o, sym), map[string]interface{}{"network": "nodes (i,0) and (i,1), i = 0..1500; rung i at speed 2, rail segments i-1..i at speeds {1,4,2}[i%3] (y=0) and 6 minus that (y=1); added rung by rung from the west", "from": from, "to": to, "observed": det})
 					}
 				}
 			}
